@@ -5,8 +5,8 @@ from common import B, L, Nat, O, P, S
 MODEL_FILES = ["Model/Validio.v", "Model/ValidioInst.v", "Corr/Obs.v"]
 HEADER = V.HEADER + """Definition run (i : cid cstate * bool * mode * option nat * list (list text) * bool) : run_obs :=
   let '(c, is_validate, m, lim, raws, fault) := i in
-  if is_validate then (let r := validate_api c lim [] raws fault in ([], r_raised r, 0%nat, 0%nat))
-  else run_obs_of (api_rows c m lim [] raws fault)."""
+  if is_validate then (let r := validate_api c lim (resets (c_checks c)) raws fault in ([], r_raised r, 0%nat, 0%nat))
+  else run_obs_of (api_rows c m lim (resets (c_checks c)) raws fault)."""
 CASE_TYPE = "(cid cstate * bool * mode * option nat * list (list text) * bool) * run_obs"
 MODEL = "run"
 EQB = "run_obs_eqb"
